@@ -518,6 +518,14 @@ KNOWN_PROBES = [
 ]
 
 
+# recorded finding: what resize(n, x) / resize(n) creates. std::vector::resize copies x into every new element; here the new elements are
+# handles to ONE object (and to x itself). (key, program, rendering the std:: semantics give)
+VALUE_PROBES = [
+    ("resize-fill-elements-share-one-object", "var x = 1; var v = []; v.resize(3, x); v[0] = 7; [v[0], v[1], v[2], x]", "[int:7, int:1, int:1, int:1]"),
+    ("resize-fill-elements-share-one-object", "var v = [5]; var y = 2; v.resize(3, y); v[1] += 10; [v[0], v[1], v[2], y]", "[int:5, int:12, int:2, int:2]"),
+]
+
+
 def run(ctx, tier, seed, scale=1.0):
     rng = random.Random(seed)
     quick = tier == "quick"
@@ -598,6 +606,14 @@ def run(ctx, tier, seed, scale=1.0):
             ctx.count("known-probe-crashed")
         else:
             ctx.count("known-probe-no-longer-fails")
+    vc = [["SEQ", "", prog] for _, prog, _ in VALUE_PROBES]
+    vres, _ = vlib.run_cases(exe, vc, "c12v", timeout_s=60, batch=1)
+    for (key, prog, want), r in zip(VALUE_PROBES, vres):
+        got = r.fields[0].split(US)[:2] if r.status == "ok" and r.fields else [r.status]
+        if got != ["ok", want]:
+            ctx.violation(key, {"program": prog, "std_semantics": want, "got": got})
+        else:
+            ctx.count("value-probe-no-longer-fails")
     ctx.rule = ("one case = one seeded operation sequence (3..%d statements) on one container kind (Vector, List, string, Map, Pair and their range "
                 "views) with indices from {INT_MIN,-1,0,size-1,size,size+1,INT_MAX}; after every statement result and container dump are compared "
                 "with a python model; distinct by statement text, every sequence is non-trivial (>=3 statements)" % maxlen)
